@@ -20,7 +20,8 @@ from hypothesis import strategies as st
 
 LITERAL_LINES = ['x = {1: <b>}', 'if a < b and c > d:', '    indented & more', '*not em* `not ref` L{not link}', '@param not: a field', ':param not: either',
                  'trailing colon::', '- not a list', '>>> not doctest', 'a   b    c', '"quotes" \'single\'', '\\backslash\\n', 'Args:', '----', 'x ; y ## z']
-DOCTEST_EXPRS = ['1 + 1', 'print("a < b")', 'x = [1, 2]', 'for i in x: pass', "d = {'k': '<v>'}"]
+DOCTEST_EXPRS = ['1 + 1', 'print("a < b")', 'x = [1, 2]', 'for i in x: pass', "d = {'k': '<v>'}", 'area(2, 3)  # doctest: +ELLIPSIS', 'print(x) #doctest: +SKIP', 's = "# doctest: +X in a string"',
+                 'f()  # an ordinary comment', 'y = 1;  z = 2   # doctest:+NORMALIZE_WHITESPACE', "print('''a''')", 'x[1:2] @ y', 'lambda: (yield)', 'r"\\d" + b"\\x00"']
 
 
 class Counter:
